@@ -281,6 +281,43 @@ func ruleR20ab(h *H) {
 			}
 		})
 		name := ir.FuncName(complete) + ": one answer per batch"
+		if len(failCalls) == 0 && len(handleCalls) == 0 {
+			// the Fail-or-handle decision extracted into a helper that Complete calls once
+			var disp *ssa.Function
+			var dispCall ssa.CallInstruction
+			ir.Instrs(complete, func(in ssa.Instruction) {
+				ci, ok := in.(ssa.CallInstruction)
+				if !ok {
+					return
+				}
+				g := ci.Common().StaticCallee()
+				if g == nil || ir.SingleCallSite(g) != ci || g.Blocks == nil {
+					return
+				}
+				nf, nh := 0, 0
+				ir.Instrs(g, func(x ssa.Instruction) {
+					if c := ir.CallOf(x); c != nil {
+						switch c.StaticCallee() {
+						case failFn:
+							nf++
+						case handle:
+							nh++
+						}
+					}
+				})
+				if nf > 0 && nh > 0 {
+					disp, dispCall = g, ci
+				}
+			})
+			if disp != nil {
+				if bad := dispatchAnswersOnce(h, complete, disp, dispCall, failFn, handle, tp, tn); bad != "" {
+					h.Bad(rb, name, h.pos(dispCall), bad)
+				} else {
+					h.OK(rb, name, h.pos(dispCall), "exactly one of Fail / handle, decided in "+ir.FuncName(disp)+" on the error of the executed request")
+				}
+				continue
+			}
+		}
 		if len(failCalls) == 0 || len(handleCalls) == 0 {
 			h.Bad(rb, name, h.P.Pos(complete.Pos()), "Complete does not call both Fail (on error) and the response handler (on success)")
 			continue
@@ -669,4 +706,83 @@ func ruleR20f(h *H) {
 	if n == 0 {
 		h.Anchor(rule, "append to ReadResponse.Gets in "+batchPkg)
 	}
+}
+
+// dispatchAnswersOnce: Complete executes the request and hands (response, err) to an
+// extracted helper; that helper answers through exactly one of Fail / handle on every
+// path, handle only when its error parameter is nil, and that parameter is the error of
+// the executed request. Returns "" when all of this holds.
+func dispatchAnswersOnce(h *H, complete, disp *ssa.Function, dispCall ssa.CallInstruction, failFn, handle, toProto *ssa.Function, tn string) string {
+	var fails, handles []ssa.Instruction
+	ir.Instrs(disp, func(in ssa.Instruction) {
+		if c := ir.CallOf(in); c != nil {
+			switch c.StaticCallee() {
+			case failFn:
+				fails = append(fails, in)
+			case handle:
+				handles = append(handles, in)
+			}
+		}
+	})
+	all := append(append([]ssa.Instruction{}, fails...), handles...)
+	for _, a := range all {
+		for _, b := range all {
+			if r, _ := ir.Reach(ir.Search{From: a}, ir.Is(b)); r {
+				return "a batch can be answered twice (both Fail and the response handler, or one of them twice, on one path)"
+			}
+		}
+	}
+	answered := ir.AnyOf(all...)
+	bad := ""
+	ir.Instrs(disp, func(in ssa.Instruction) {
+		if _, ok := in.(*ssa.Return); ok && bad == "" {
+			if r, _ := ir.Reach(ir.Search{Fn: disp, Barrier: answered}, ir.Is(in)); r {
+				bad = ir.FuncName(disp) + " can return without answering the queued calls"
+			}
+		}
+	})
+	if bad != "" {
+		return bad
+	}
+	// the executed request in Complete, and its error handed to the helper
+	var exec ssa.Instruction
+	ir.Instrs(complete, func(in ssa.Instruction) {
+		c := ir.CallOf(in)
+		if c == nil || exec != nil {
+			return
+		}
+		if f := c.StaticCallee(); f != nil && f != toProto && f != disp && f.Signature.Recv() != nil && ir.TypeIs(f.Signature.Recv().Type(), batchPkg, tn) && f.Signature.Results().Len() == 2 {
+			exec = in
+		}
+	})
+	if exec == nil {
+		return "cannot find the call that executes the request"
+	}
+	ir.Instrs(complete, func(in ssa.Instruction) {
+		if _, ok := in.(*ssa.Return); ok && bad == "" {
+			if r, _ := ir.Reach(ir.Search{From: exec, Barrier: ir.Is(dispCall)}, ir.Is(in)); r {
+				bad = "Complete can return after executing the request without answering the queued calls"
+			}
+		}
+	})
+	if bad != "" {
+		return bad
+	}
+	ev := ir.ErrResult(exec.(ssa.CallInstruction))
+	var errParam *ssa.Parameter
+	for i, p := range disp.Params {
+		if ir.IsError(p.Type()) && i < len(dispCall.Common().Args) && ev != nil && ir.Canon(dispCall.Common().Args[i]) == ir.Canon(ev) {
+			errParam = p
+		}
+	}
+	if errParam == nil {
+		return "the helper that answers the batch is not given the error of the executed request"
+	}
+	first := disp.Blocks[0].Instrs[0]
+	for _, hc := range handles {
+		if ok, _ := ir.OkOnly(disp, errParam, first, hc); !ok {
+			return "the response handler can run although the request failed (nil response)"
+		}
+	}
+	return ""
 }
